@@ -1,4 +1,4 @@
-SPECIFICATION Spec
+SPECIFICATION SpecFb
 CONSTANTS
   MaxSteps = 12
   MaxCycles = 5
